@@ -66,6 +66,9 @@ pub enum Op {
     /// nobody (`signed` false) or by a stranger for exactly this call: no funds can come in that way, so if the service
     /// accepts and reports it as a payment its books no longer match its balance
     PayAsService { token: u8, amount: Amt, add: bool, sender_too: bool, signed: bool },
+    /// a spender is given, and pays in, so much of the current-source token that the service ends up holding
+    /// i128::MAX - `leave`: later payments of more than `leave` cannot be credited and must be refused, not clamped
+    WhalePay { spender: u8, leave: u8 },
 }
 
 #[derive(Clone, Debug, Serialize, Deserialize)]
@@ -96,6 +99,7 @@ fn op() -> impl Strategy<Value = Op> {
         1 => (1u8..90).prop_map(Op::AdvanceDays),
         2 => (0u8..5, 0u8..3, 0u8..4, any::<bool>()).prop_map(|(who, token, how, all)| Op::ThirdPartyPull { who, token, how, all }),
         1 => (0u8..3, amt(), any::<bool>(), any::<bool>(), any::<bool>()).prop_map(|(token, amount, add, sender_too, signed)| Op::PayAsService { token, amount, add, sender_too, signed }),
+        1 => (0u8..NS as u8, 0u8..40).prop_map(|(spender, leave)| Op::WhalePay { spender, leave }),
     ]
 }
 
@@ -107,7 +111,7 @@ fn resolve(a: Amt, bal: i128) -> i128 {
         Amt::One => 1,
         Amt::Small(k) => k as i128,
         Amt::Bal => bal,
-        Amt::BalPlus1 => bal + 1,
+        Amt::BalPlus1 => bal.saturating_add(1),
         Amt::Max => i128::MAX,
     }
 }
@@ -256,6 +260,29 @@ impl Property for C14 {
                 ensure_p!(snapshot(&env) == snap0, "step {}: refused {} on the service's custody changed the ledger", step, f);
                 continue;
             }
+            if let Op::WhalePay { spender, leave } = op {
+                let ti = 2; // the current-source InterchainToken
+                let si = *spender as usize % NS;
+                let target = i128::MAX - *leave as i128;
+                if held[ti] >= target {
+                    continue;
+                }
+                let p = target - held[ti];
+                env.mock_all_auths();
+                if p > sbal[ti][si] {
+                    it.mint(&spenders[si], &(p - sbal[ti][si]));
+                    sbal[ti][si] = p;
+                }
+                let tok = Token { address: tokens[ti].clone(), amount: p };
+                let r = gas.client.try_pay_gas(&sender, &sstr(&env, "dest-chain"), &sstr(&env, "dest-addr"), &Bytes::from_slice(&env, &[1]), &spenders[si], &tok, &Bytes::from_slice(&env, &[9, 9]));
+                ensure_p!(matches!(r, Ok(Ok(()))), "step {} {:?}: a covered payment of {} (service would hold {}) was refused: {:?}", step, op, p, target, r);
+                sbal[ti][si] -= p;
+                held[ti] += p;
+                touched[ti] = true;
+                cx.label("service_holds_almost_i128_max_of_a_token");
+                // (the per-step comparison of all balances is made after the next ordinary step)
+                continue;
+            }
             if let Op::PayAsService { token, amount, add, sender_too, signed } = op {
                 // (not the unchecked harness token: it lets anybody move anything)
                 let ti = *token as usize % 3;
@@ -297,7 +324,7 @@ impl Property for C14 {
             }
             let ti = match op {
                 Op::Pay { token, .. } | Op::Add { token, .. } | Op::Collect { token, .. } | Op::Refund { token, .. } => *token as usize % NT,
-                Op::TransferOwnership | Op::UpgradeAndMigrate | Op::AdvanceDays(_) | Op::ThirdPartyPull { .. } | Op::PayAsService { .. } => unreachable!(),
+                Op::TransferOwnership | Op::UpgradeAndMigrate | Op::AdvanceDays(_) | Op::ThirdPartyPull { .. } | Op::PayAsService { .. } | Op::WhalePay { .. } => unreachable!(),
             };
             let taddr = tokens[ti].clone();
             touched[ti] = true;
@@ -320,7 +347,7 @@ impl Property for C14 {
             match (op, by) {
                 (Op::Pay { .. } | Op::Add { .. }, _) | (_, By::Collector) => env.mock_all_auths(),
                 (_, By::Nobody) => env.mock_auths(&[]),
-                (Op::TransferOwnership, _) | (Op::UpgradeAndMigrate, _) | (Op::AdvanceDays(_), _) | (Op::ThirdPartyPull { .. }, _) | (Op::PayAsService { .. }, _) => unreachable!(),
+                (Op::TransferOwnership, _) | (Op::UpgradeAndMigrate, _) | (Op::AdvanceDays(_), _) | (Op::ThirdPartyPull { .. }, _) | (Op::PayAsService { .. }, _) | (Op::WhalePay { .. }, _) => unreachable!(),
                 (Op::Collect { receiver, amount, .. }, b) => {
                     let a = resolve(if ti == SLOPPY && *amount == Amt::Max { Amt::BalPlus1 } else { *amount }, held[ti]);
                     let who = match b {
@@ -374,7 +401,11 @@ impl Property for C14 {
                 Op::Pay { spender, amount: a, payload_len, .. } => {
                     let si = *spender as usize % NS;
                     amount = resolve(if ti == SLOPPY && *a == Amt::Max { Amt::BalPlus1 } else { *a }, sbal[ti][si]);
-                    expect = if amount > 0 && amount <= sbal[ti][si] {
+                    expect = if amount > 0 && amount <= sbal[ti][si] && held[ti].checked_add(amount).is_none() {
+                        // the service's balance cannot hold it: the payment cannot be credited
+                        cx.label("payment_that_would_overflow_the_services_balance");
+                        E::Fail
+                    } else if amount > 0 && amount <= sbal[ti][si] {
                         E::Ok
                     } else if ti == SLOPPY && amount > sbal[ti][si] {
                         E::Either
@@ -387,7 +418,7 @@ impl Property for C14 {
                     ok = matches!(r, Ok(Ok(())));
                     if ok {
                         sbal[ti][si] -= amount;
-                        held[ti] += amount;
+                        held[ti] = held[ti].saturating_add(amount);
                         want_event = Some(("gas_paid", tok));
                         want_hash = Some(keccak256(&payload));
                     }
@@ -395,7 +426,10 @@ impl Property for C14 {
                 Op::Add { spender, amount: a, .. } => {
                     let si = *spender as usize % NS;
                     amount = resolve(if ti == SLOPPY && *a == Amt::Max { Amt::BalPlus1 } else { *a }, sbal[ti][si]);
-                    expect = if amount > 0 && amount <= sbal[ti][si] {
+                    expect = if amount > 0 && amount <= sbal[ti][si] && held[ti].checked_add(amount).is_none() {
+                        cx.label("payment_that_would_overflow_the_services_balance");
+                        E::Fail
+                    } else if amount > 0 && amount <= sbal[ti][si] {
                         E::Ok
                     } else if ti == SLOPPY && amount > sbal[ti][si] {
                         E::Either
@@ -407,7 +441,7 @@ impl Property for C14 {
                     ok = matches!(r, Ok(Ok(())));
                     if ok {
                         sbal[ti][si] -= amount;
-                        held[ti] += amount;
+                        held[ti] = held[ti].saturating_add(amount);
                         want_event = Some(("gas_added", tok));
                     }
                 }
@@ -415,7 +449,9 @@ impl Property for C14 {
                     let ri = *receiver as usize % NR;
                     amount = resolve(if ti == SLOPPY && *a == Amt::Max { Amt::BalPlus1 } else { *a }, held[ti]);
                     let signer_is_collector = *by == By::Collector || (*by == By::Owner && owner_now == gas.collector);
-                    expect = if signer_is_collector && amount > 0 && amount <= held[ti] { E::Ok } else { E::Fail };
+                    // (a receiver whose balance cannot hold the amount cannot be credited)
+                    let fits = ri == SELF_R || TokenClient::new(&env, &taddr).balance(&receivers[ri]).checked_add(amount.max(0)).is_some();
+                    expect = if signer_is_collector && amount > 0 && amount <= held[ti] && fits { E::Ok } else { E::Fail };
                     let tok = Token { address: taddr.clone(), amount };
                     let r = gas.client.try_collect_fees(&receivers[ri], &tok);
                     ok = matches!(r, Ok(Ok(())));
@@ -428,12 +464,13 @@ impl Property for C14 {
                         payout = true;
                     }
                 }
-                Op::TransferOwnership | Op::UpgradeAndMigrate | Op::AdvanceDays(_) | Op::ThirdPartyPull { .. } | Op::PayAsService { .. } => unreachable!(),
+                Op::TransferOwnership | Op::UpgradeAndMigrate | Op::AdvanceDays(_) | Op::ThirdPartyPull { .. } | Op::PayAsService { .. } | Op::WhalePay { .. } => unreachable!(),
                 Op::Refund { by, receiver, amount: a, .. } => {
                     let ri = *receiver as usize % NR;
                     amount = resolve(if ti == SLOPPY && *a == Amt::Max { Amt::BalPlus1 } else { *a }, held[ti]);
                     let signer_is_collector = *by == By::Collector || (*by == By::Owner && owner_now == gas.collector);
-                    expect = if !signer_is_collector {
+                    let fits = ri == SELF_R || TokenClient::new(&env, &taddr).balance(&receivers[ri]).checked_add(amount.max(0)).is_some();
+                    expect = if !signer_is_collector || !fits {
                         E::Fail
                     } else if ti == SLOPPY && (amount < 0 || amount > held[ti]) {
                         // refund relies on the token to refuse out-of-range amounts; with a token that
